@@ -60,13 +60,22 @@ package agreement
 //   equivocationVoteAuthenticator, makeBundle, makeVote, membership, rawVote,
 //   unauthenticatedVote(.verify), vote, equivocationVote, proposalValue, bottom, step consts,
 //   makeTestLedgerWithConsensusVersion (upstream test helper).
-// Mutants (bin/mut, quick tier): see the final report / checks.d note; all DETECTED:
-//   1. bundle.go: no duplicate check for equivocation votes
-//   2. vote.go: equivocation pair compared on BlockDigest only
-//   3. vote.go: identical-pair check removed
-//   4. bundle.go: weight of equivocation votes counted twice / quorum check with > instead...
-//   5. certificate.go: round check dropped in claimsToAuthenticate
-//   6. vote.go: second vote of a pair not verified
+// Tiers: quick mutates the accepted / just-below bases without pair and with pair kinds
+//   (v,w) / (v,v') (resp. (bottom,v) / (v,w)); thorough mutates the bases of all 5 kinds.
+//   Base bundles, makeBundle orders and certificates are always complete.
+// Mutants (bin/mut, quick tier), all DETECTED:
+//   1. bundle.go verifyAsync: duplicate check of equivocation votes removed
+//      (`if voters[ev.Sender] {` -> `if false {`)            -> C04:accepted-duplicate-voter
+//   2. vote.go: equivocation pair compared on BlockDigest only -> C04:rejected-makebundle-output
+//      (a genuine (v, v') pair packed by makeBundle is refused)
+//   3. vote.go: identical-pair check removed                  -> C04:accepted-identical-pair
+//   4. vote.go: second vote of a pair not verified (uv0 twice) -> C04:accepted-invalid-pair-vote
+//   5. certificate.go: round check dropped in claimsToAuthenticate -> C04:cert-accepted-wrong-claim
+//   6. bundle.go: quorum test off by one (weight+1)           -> C04:accepted-below-threshold
+//   7. types.go reachesQuorum: redo uses the late threshold   -> C04:accepted-below-threshold
+//      (own; only visible with per-step thresholds, variant w123mix)
+//   8. vote.go: bottom allowed in soft/cert votes             -> C04:vote-accepted-invalid
+//   9. certificate.go: `if c.Step != cert` dropped            -> C04:cert-accepted-wrong-claim
 
 import (
 	"context"
@@ -480,6 +489,7 @@ type c04Ctx struct {
 	mu                                   *sync.Mutex
 	nAccepted, nRejected, nValidRejected *int64
 	nCert, nCertOK                       *int64
+	validRejected                        map[string]int64 // why the code rejected reference-valid bundles (evidence only)
 }
 
 func (c *c04Ctx) replay(m *c04B, what string) map[string]any {
@@ -505,6 +515,13 @@ func (c *c04Ctx) check(m *c04B, what string, must bool) bool {
 		*c.nRejected++
 		if valid {
 			*c.nValidRejected++
+			why := o.msg
+			if k := strings.Index(why, ":"); k > 0 && strings.Contains(why, "bundle too large") {
+				why = "bundle too large (more entries than the threshold)"
+			} else if len(why) > 70 {
+				why = why[:70]
+			}
+			c.validRejected[why]++
 		}
 	}
 	c.mu.Unlock()
@@ -900,7 +917,7 @@ func (c *c04Ctx) c04MakeBundle(m *c04B) {
 			}
 			okModel = okModel && found
 		}
-		if !okModel || string(protocol.Encode(ptrC04(env.build(mb)))) != enc {
+		if !okModel || string(protocol.Encode(c04Ptr(env.build(mb)))) != enc {
 			c.r.Report("C04:makebundle-content", fmt.Sprintf("[%s] makeBundle output is not made of the votes it was given: %s", env.v.name, m), c.replay(m, "makeBundle"))
 			return
 		}
@@ -908,7 +925,7 @@ func (c *c04Ctx) c04MakeBundle(m *c04B) {
 	})
 }
 
-func ptrC04(b unauthenticatedBundle) *unauthenticatedBundle { return &b }
+func c04Ptr(b unauthenticatedBundle) *unauthenticatedBundle { return &b }
 
 func TestVerif_C04(t *testing.T) {
 	r := ve.NewRun("C04", "exploration")
@@ -935,6 +952,7 @@ func TestVerif_C04(t *testing.T) {
 	var mu sync.Mutex
 	var nAcc, nRej, nValidRej, nCert, nCertOK, nBase, nMutBases, nMutated, nDistinct, nMustAccept int64
 	mutNames := map[string]bool{}
+	validRejected := map[string]int64{}
 	complete := true
 	for _, v := range variants {
 		if replayVariant != "" && replayVariant != v.name {
@@ -978,7 +996,7 @@ func TestVerif_C04(t *testing.T) {
 					m.Votes = append(m.Votes, c04GenuineVote(a, m))
 				}
 			}
-			c := &c04Ctx{r: r, env: env, base: i, mu: &mu, nAccepted: &nAcc, nRejected: &nRej, nValidRejected: &nValidRej, nCert: &nCert, nCertOK: &nCertOK}
+			c := &c04Ctx{r: r, env: env, base: i, mu: &mu, nAccepted: &nAcc, nRejected: &nRej, nValidRejected: &nValidRej, nCert: &nCert, nCertOK: &nCertOK, validRejected: validRejected}
 			accepted := c.check(m, "base", false)
 			// verifyAsync must agree with verify
 			ub := env.build(m)
@@ -1050,6 +1068,7 @@ func TestVerif_C04(t *testing.T) {
 	r.Set("verify_accepted", nAcc)
 	r.Set("verify_rejected", nRej)
 	r.Set("reference_valid_but_rejected_not_required", nValidRej)
+	r.Set("reference_valid_but_rejected_reasons", validRejected)
 	r.Set("authenticate_calls", nCert)
 	r.Set("authenticate_accepted", nCertOK)
 	r.Assume("private consensus versions with committee size == total online stake: credential weight == stake (checked on every vote used)")
